@@ -405,7 +405,7 @@ def stepC (st : CSt) (args : List String) : CSt × String :=
               h == "configConsumerDetail" || h == "configNotifierDetail") then
             let kind := if h == "handleClusterDetail" then "cluster" else ((h.drop 6).dropEnd 6).toString.toLower
             let nm := if h == "handleClusterDetail" then Http.param ps "cluster" else Http.param ps "name"
-            if (st.cfg.children [kind]).contains nm.toLower then "" else " ~specviol=D15"
+            if (st.cfg.vChildren [kind]).contains nm.toLower then "" else " ~specviol=D15"
           else ""
         | _, _ => ""
       let tsr := path.length > 1 && path.endsWith "/" &&
